@@ -328,10 +328,10 @@ Fixpoint tbl_gen (f : list wloc -> res (list byte)) (pos : N) (tbl : list (list 
       Ok (bs ++ rest, pos :: offs)
   end.
 
-Lemma lw_tbl_v4_gen dbg loc be version asz hb pos tbl :
-  write_tbl_v4 dbg loc be version asz hb pos tbl = tbl_gen (write_list_v4 dbg loc be version asz hb) pos tbl.
-Proof. revert pos; induction tbl as [|l r IH]; intros pos; cbn [write_tbl_v4 tbl_gen]; [reflexivity|].
-  destruct (write_list_v4 dbg loc be version asz hb l); cbn [bind]; try reflexivity. now rewrite IH. Qed.
+Lemma lw_lists_v4_gen loc be version asz mk hb pos tbl :
+  write_lists_v4 loc be version asz mk hb pos tbl = tbl_gen (write_list_v4 loc be version asz mk hb) pos tbl.
+Proof. revert pos; induction tbl as [|l r IH]; intros pos; cbn [write_lists_v4 tbl_gen]; [reflexivity|].
+  destruct (write_list_v4 loc be version asz mk hb l); cbn [bind]; try reflexivity. now rewrite IH. Qed.
 
 Lemma lw_lists_v5_gen loc be version asz pos tbl :
   write_lists_v5 loc be version asz pos tbl = tbl_gen (write_list_v5 loc be version asz) pos tbl.
@@ -490,36 +490,39 @@ Proof.
   - inversion H; subst. rewrite (Hn eq_refl). split; [reflexivity|vm_compute; reflexivity].
 Qed.
 
-Lemma lw_sle_const dbg v len e :
-  start_length_end dbg (AConst v) len = Ok e -> e = AConst ((v + len) mod 2 ^ 64).
+Lemma lw_enc_word_length be asz v : length (enc_word be asz v) = N.to_nat asz.
+Proof. apply lw_enc_un_length. Qed.
+
+Lemma lw_mask_pos asz : size_ok asz -> mask_of asz <> 0 /\ mask_of asz < amod asz.
+Proof. intros [-> | [-> | [-> | ->]]]; vm_compute; split; congruence. Qed.
+
+Lemma lw_sle_const v len e :
+  start_length_end (AConst v) len = Ok e -> e = AConst (v + len) /\ v + len < 2 ^ 64.
 Proof.
-  cbn [start_length_end]. unfold chk_add, wrapN. destruct (v + len <? 2 ^ 64) eqn:E; cbn [bind].
-  - intros H; inversion H; subst. rewrite N.mod_small by lia. reflexivity.
-  - destruct dbg; cbn [bind]; [discriminate|]. intros H; inversion H; subst. reflexivity.
+  cbn [start_length_end]. destruct (v + len <? 2 ^ 64) eqn:E; [|discriminate].
+  intros H; inversion H; subst. split; [reflexivity|lia].
 Qed.
 
-Lemma lw_mod64_lt x : x mod 2 ^ 64 < 2 ^ 64.
-Proof. apply N.mod_lt. vm_compute; discriminate. Qed.
+Lemma lw_marker_mask asz : marker asz = mask_of asz.
+Proof. reflexivity. Qed.
 
-Lemma lw_ones_sized_ok dbg asz m : ones_sized dbg asz = Ok m -> size_ok asz -> m = mask_of asz.
+Lemma lw_marker_of_ok asz mk : marker_of asz = Ok mk -> 1 <= asz <= 8 /\ mk = marker asz.
 Proof.
-  intros H [-> | [-> | [-> | ->]]]; destruct dbg; vm_compute in H; inversion H; reflexivity.
+  unfold marker_of. destruct ((1 <=? asz) && (asz <=? 8)) eqn:E; [|discriminate]. intros H.
+  assert (Hc : asz = 1 \/ asz = 2 \/ asz = 3 \/ asz = 4 \/ asz = 5 \/ asz = 6 \/ asz = 7 \/ asz = 8) by lia.
+  split; [lia|].
+  destruct Hc as [-> | [-> | [-> | [-> | [-> | [-> | [-> | ->]]]]]]]; vm_compute in H; inversion H; reflexivity.
 Qed.
 
-Lemma lw_ones_sized_u64 dbg asz m : ones_sized dbg asz = Ok m -> m < 2 ^ 64.
-Proof.
-  unfold ones_sized. intros H. bind_ok H. bind_ok H.
-  assert (G : forall s, N.shiftr (two64 - 1) s < 2 ^ 64).
-  { intros s. rewrite N.shiftr_div_pow2. apply N.le_lt_trans with (two64 - 1).
-    - apply N.div_le_upper_bound; [apply N.pow_nonzero; discriminate|].
-      pose proof (pow_pos s). nia.
-    - vm_compute; reflexivity. }
-  destruct (64 <=? a0); [destruct dbg; [discriminate|]|]; inversion H; subst; apply G.
-Qed.
+Lemma lw_marker_of_valid asz : size_ok asz -> marker_of asz = Ok (marker asz).
+Proof. intros [-> | [-> | [-> | ->]]]; vm_compute; reflexivity. Qed.
+
+Lemma lw_marker_of_bad asz : ~ (1 <= asz <= 8) -> marker_of asz = Err WUnsupportedWordSize.
+Proof. intros H. unfold marker_of. destruct ((1 <=? asz) && (asz <=? 8)) eqn:E; [lia|reflexivity]. Qed.
 
 (* W4: on success the writer has emitted exactly the pair encoding of `pairs_of l`, every pair fits and none is (0,0) *)
-Lemma lw_write_v4_enc dbg loc be version asz : forall l hb bs,
-  write_list_v4 dbg loc be version asz hb l = Ok bs -> version <= 4 -> Forall (wf loc) l ->
+Lemma lw_write_v4_enc loc be version asz : forall l hb bs,
+  write_list_v4 loc be version asz (marker asz) hb l = Ok bs -> version <= 4 -> Forall (wf loc) l ->
   size_ok asz /\ exists ps, pairs_of l = Some ps /\ Forall (pair_ok loc asz) ps /\ bs = enc_list4 loc be asz ps.
 Proof.
   induction l as [|x r IH]; intros hb bs H Hv Hwf; cbn [write_list_v4] in H.
@@ -531,17 +534,19 @@ Proof.
     destruct Hx as [Hxw [Hd _]].
     destruct x as [a|b e d|b e d|b len d|d]; cbn [wloc_wf data_of] in *.
     + (* base *)
-      bind_ok H. bind_ok H. bind_ok H. bind_ok H. inversion H; subst.
-      destruct (IH _ _ E2 Hv Hr) as [Hs [ps [Hp [Hok ->]]]].
-      destruct (lw_write_address_ok _ _ _ _ E1 Hxw) as [v [-> [_ [Hvf ->]]]].
-      pose proof (lw_ones_sized_ok _ _ _ E Hs) as ->.
-      destruct (lw_write_udata_ok _ _ _ _ E0 (lw_ones_sized_u64 _ _ _ E)) as [_ [_ ->]].
+      bind_ok H. bind_ok H. bind_ok H. inversion H; subst.
+      destruct (IH _ _ E1 Hv Hr) as [Hs [ps [Hp [Hok ->]]]].
+      destruct (lw_write_address_ok _ _ _ _ E0 Hxw) as [v [-> [_ [Hvf ->]]]].
+      destruct (lw_mask_pos _ Hs) as [_ Hmf]. pose proof (lw_amod_le_64 _ Hs) as H64.
+      rewrite lw_marker_mask in E.
+      destruct (lw_write_udata_ok _ _ _ _ E ltac:(lia)) as [_ [_ ->]].
       split; [exact Hs|]. exists (EBase v :: ps). cbn [pairs_of pair_of]. rewrite Hp.
       split; [reflexivity|]. split; [constructor; [exact Hvf|exact Hok]|].
       unfold enc_list4. cbn [flat_map enc_pair4]. unfold enc_word. rewrite <- !app_assoc. reflexivity.
     + (* offset pair *)
       destruct Hxw as [Hb He].
       destruct (b =? e) eqn:Ebe; [discriminate|]. destruct (negb hb) eqn:Ehb; [discriminate|].
+      destruct (b =? marker asz) eqn:Ebm; [discriminate|].
       bind_ok H. bind_ok H. bind_ok H. bind_ok H. inversion H; subst.
       destruct (IH _ _ E2 Hv Hr) as [Hs [ps [Hp [Hok ->]]]].
       destruct (lw_write_udata_ok _ _ _ _ E Hb) as [_ [Hbf ->]].
@@ -554,6 +559,7 @@ Proof.
     + (* start end *)
       destruct Hxw as [Hb He].
       destruct (addr_eqb b e) eqn:Ebe; [discriminate|]. destruct hb eqn:Ehb; [discriminate|].
+      destruct (addr_eqb b (AConst (marker asz))) eqn:Ebm; [discriminate|].
       bind_ok H. bind_ok H. bind_ok H. bind_ok H. inversion H; subst.
       destruct (IH _ _ E2 Hv Hr) as [Hs [ps [Hp [Hok ->]]]].
       destruct (lw_write_address_ok _ _ _ _ E Hb) as [vb [-> [_ [Hbf ->]]]].
@@ -568,26 +574,21 @@ Proof.
       destruct Hxw as [Hb Hl].
       bind_ok H.
       destruct (addr_eqb b a) eqn:Ebe; [discriminate|]. destruct hb eqn:Ehb; [discriminate|].
+      destruct (addr_eqb b (AConst (marker asz))) eqn:Ebm; [discriminate|].
       bind_ok H. bind_ok H. bind_ok H. bind_ok H. inversion H; subst.
       destruct (IH _ _ E3 Hv Hr) as [Hs [ps [Hp [Hok ->]]]].
       destruct (lw_write_address_ok _ _ _ _ E0 Hb) as [vb [-> [_ [Hbf ->]]]].
-      pose proof (lw_sle_const _ _ _ _ E) as ->.
-      destruct (lw_write_address_ok _ _ _ _ E1 (lw_mod64_lt _)) as [ve [Hve [_ [Hef ->]]]].
+      destruct (lw_sle_const _ _ _ E) as [-> Hsum].
+      destruct (lw_write_address_ok _ _ _ _ E1 Hsum) as [ve [Hve [_ [Hef ->]]]].
       inversion Hve; subst ve.
       destruct (lw_opt_expr4 _ _ _ _ _ E2 Hv Hn) as [-> Hdl].
       cbn [addr_eqb] in Ebe.
-      split; [exact Hs|]. exists (EPair vb ((vb + len) mod 2 ^ 64) d :: ps). cbn [pairs_of pair_of]. rewrite Hp.
+      split; [exact Hs|]. exists (EPair vb (vb + len) d :: ps). cbn [pairs_of pair_of]. rewrite Hp.
       split; [reflexivity|]. split.
       * constructor; [|exact Hok]. cbn [pair_ok]. repeat split; try assumption. lia.
       * unfold enc_list4. cbn [flat_map enc_pair4]. unfold enc_word. rewrite <- !app_assoc. reflexivity.
     + discriminate.
 Qed.
-
-Lemma lw_enc_word_length be asz v : length (enc_word be asz v) = N.to_nat asz.
-Proof. apply lw_enc_un_length. Qed.
-
-Lemma lw_mask_pos asz : size_ok asz -> mask_of asz <> 0 /\ mask_of asz < amod asz.
-Proof. intros [-> | [-> | [-> | ->]]]; vm_compute; split; congruence. Qed.
 
 Lemma lw_opt_data4 dbg loc be d rest :
   N.of_nat (length d) < 65536 -> (loc = false -> d = []) ->
@@ -654,22 +655,6 @@ Proof.
 Qed.
 
 (* A4: without a marker clash in the list no emitted non-base pair begins with the marker *)
-Lemma lw_nomark asz : forall l ps,
-  pairs_of l = Some ps -> ~ marker_clash asz l -> Forall (pair_nomark asz) ps.
-Proof.
-  induction l as [|x r IH]; intros ps Hp Hc; cbn [pairs_of] in Hp.
-  - inversion Hp; subst. constructor.
-  - destruct (pair_of x) as [p|] eqn:Ex; [|discriminate].
-    destruct (pairs_of r) as [ps'|] eqn:Er; [|discriminate]. inversion Hp; subst.
-    constructor.
-    + destruct p as [a|b e d|b e d|b len d|d|b e d]; cbn [pair_nomark]; try exact I.
-      intros Hb. apply Hc. exists x. split; [left; reflexivity|].
-      rewrite lw_mask_amod in Hb. subst b.
-      destruct x as [[a|s z]|b' e' d'|[b'|s z] [e'|s' z'] d'|[b'|s z] len d'|d']; cbn [pair_of begin_of] in *;
-        try discriminate; inversion Ex; subst; reflexivity.
-    + apply (IH _ eq_refl). intros [y [Hy Hb]]. apply Hc. exists y. split; [right; exact Hy|exact Hb].
-Qed.
-
 Lemma lw_pairs_ents : forall l ps, pairs_of l = Some ps -> exists es, ents_of l = Some es.
 Proof.
   induction l as [|x r IH]; intros ps Hp; cbn [pairs_of ents_of] in *; [eauto|].
@@ -681,32 +666,6 @@ Proof.
 Qed.
 
 (* R1: a list that must be rejected never produces bytes *)
-Lemma lw_never_bytes dbg loc be version asz : forall l hb bs,
-  write_list_v4 dbg loc be version asz hb l = Ok bs -> Forall (wf loc) l -> rejected hb l = None.
-Proof.
-  induction l as [|x r IH]; intros hb bs H Hwf; [reflexivity|].
-  inversion Hwf as [|? ? Hx Hr]; subst. destruct Hx as [Hxw _].
-  cbn [write_list_v4] in H. cbn [rejected].
-  destruct x as [a|b e d|b e d|b len d|d]; cbn [wloc_wf reject_entry is_base] in *.
-  - bind_ok H. bind_ok H. bind_ok H. bind_ok H. rewrite orb_true_r. eapply IH; eauto.
-  - destruct (b =? e) eqn:Ebe; [discriminate|]. destruct hb; cbn [negb] in H; [|discriminate].
-    bind_ok H. bind_ok H. bind_ok H. bind_ok H. cbn [orb]. eapply IH; eauto.
-  - destruct (addr_eqb b e) eqn:Ebe; [discriminate|]. destruct hb; [discriminate|].
-    bind_ok H. bind_ok H. bind_ok H. bind_ok H. cbn [orb]. eapply IH; eauto.
-  - bind_ok H. destruct (addr_eqb b a) eqn:Ebe; [discriminate|]. destruct hb; [discriminate|].
-    bind_ok H. bind_ok H. bind_ok H. bind_ok H.
-    destruct b as [v|s z]; [|discriminate E0].
-    pose proof (lw_sle_const _ _ _ _ E) as ->. cbn [addr_eqb] in Ebe.
-    destruct (len =? 0) eqn:El.
-    { assert (len = 0) by lia; subst len. destruct Hxw as [Hv _]. cbn [addr_wf] in Hv.
-      rewrite N.add_0_r, N.mod_small in Ebe by exact Hv. rewrite N.eqb_refl in Ebe. discriminate. }
-    cbn [orb]. eapply IH; eauto.
-  - discriminate.
-Qed.
-
-Lemma lw_ones_sized_valid dbg asz : size_ok asz -> ones_sized dbg asz = Ok (mask_of asz).
-Proof. intros [-> | [-> | [-> | ->]]]; destruct dbg; vm_compute; reflexivity. Qed.
-
 Lemma lw_opt_expr4_fits loc be version d :
   version <= 4 -> N.of_nat (length d) < 65536 -> exists x, opt_expression loc be version d = Ok x.
 Proof.
@@ -715,73 +674,124 @@ Proof.
   rewrite (lw_write_udata_fits be _ 2) by (unfold size_ok; auto). cbn [bind]. eauto.
 Qed.
 
-Lemma lw_to_i64_nonzero len : len < 2 ^ 64 -> len <> 0 -> to_i64 len <> 0%Z.
+Lemma lw_tombstone_pos asz : size_ok asz -> (tombstone asz <=? 0) = false.
+Proof. intros [-> | [-> | [-> | ->]]]; vm_compute; reflexivity. Qed.
+
+(* R4: for a list the pair format accepts, reading the pairs relative to the base means the same as the list.
+   hb = false (no base address in force) implies that the reader's base is 0: address pairs are absolute. *)
+(* R1: a list that must be rejected never produces bytes. Since the repair of the writers this includes the
+   entries that begin with the base-selection marker and the StartLength sums that do not fit. *)
+Lemma lw_never_bytes loc be version asz : forall l hb bs,
+  write_list_v4 loc be version asz (marker asz) hb l = Ok bs -> Forall (wf loc) l -> rejected asz hb l = None.
 Proof.
-  intros Hl Hn. unfold to_i64, to_signed, wrapN. rewrite N.mod_small by exact Hl.
-  change (2 ^ (64 - 1)) with 9223372036854775808. change (2 ^ 64) with 18446744073709551616 in *.
-  destruct (len <? 9223372036854775808) eqn:E; lia.
+  induction l as [|x r IH]; intros hb bs H Hwf; [reflexivity|].
+  inversion Hwf as [|? ? Hx Hr]; subst. destruct Hx as [Hxw _].
+  cbn [write_list_v4] in H. cbn [rejected].
+  destruct x as [a|b e d|b e d|b len d|d]; cbn [wloc_wf reject_entry is_base] in *.
+  - bind_ok H. bind_ok H. bind_ok H. rewrite orb_true_r. eapply IH; eauto.
+  - destruct (b =? e) eqn:Ebe; [discriminate|]. destruct hb; cbn [negb] in *; [|discriminate].
+    destruct (b =? marker asz) eqn:Ebm; [discriminate|].
+    bind_ok H. bind_ok H. bind_ok H. bind_ok H. cbn [orb]. eapply IH; eauto.
+  - destruct (addr_eqb b e) eqn:Ebe; [discriminate|]. destruct hb; [discriminate|].
+    destruct (addr_eqb b (AConst (marker asz))) eqn:Ebm; [discriminate|].
+    bind_ok H. bind_ok H. bind_ok H. bind_ok H. cbn [orb]. eapply IH; eauto.
+  - bind_ok H. destruct (addr_eqb b a) eqn:Ebe; [discriminate|]. destruct hb; [discriminate|].
+    destruct (addr_eqb b (AConst (marker asz))) eqn:Ebm; [discriminate|].
+    bind_ok H. bind_ok H. bind_ok H. bind_ok H.
+    destruct b as [v|s z]; [|discriminate E0].
+    destruct (lw_sle_const _ _ _ E) as [-> Hsum]. cbn [addr_eqb sum_fits] in *.
+    destruct (v + len <? 2 ^ 64) eqn:Es; [|lia]. cbn [negb].
+    destruct (len =? 0) eqn:El; [lia|].
+    cbn [orb]. eapply IH; eauto.
+  - discriminate.
 Qed.
 
 (* R2: the first entry that must be rejected decides the result, with exactly the error of the rule *)
-Lemma lw_rejects dbg loc be version asz : size_ok asz -> version <= 4 -> forall l hb e,
-  Forall wloc_wf l -> rejected hb l = Some e -> plain_until_reject asz hb l = true ->
-  write_list_v4 dbg loc be version asz hb l = Err e.
+Lemma lw_rejects loc be version asz : size_ok asz -> version <= 4 -> forall l hb e,
+  Forall wloc_wf l -> rejected asz hb l = Some e -> plain_until_reject asz hb l = true ->
+  write_list_v4 loc be version asz (marker asz) hb l = Err e.
 Proof.
-  intros Hs Hv. pose proof (lw_amod_le_64 _ Hs) as H64.
+  intros Hs Hv. pose proof (lw_amod_le_64 _ Hs) as H64. destruct (lw_mask_pos _ Hs) as [_ Hmf].
+  rewrite <- lw_marker_mask in Hmf.
   induction l as [|x r IH]; intros hb e Hwf Hrej Hpl; [discriminate|].
   inversion Hwf as [|? ? Hxw Hr]; subst.
   cbn [rejected plain_until_reject] in *. cbn [write_list_v4].
-  destruct (reject_entry hb x) as [e'|] eqn:Ere.
+  destruct (reject_entry asz hb x) as [e'|] eqn:Ere.
   - (* x is the offender *)
     inversion Hrej; subst e'. clear IH Hrej.
-    destruct x as [a|b e0 d|b e0 d|b len d|d]; cbn [reject_entry sum_fits wloc_wf] in *.
+    destruct x as [a|b e0 d|b e0 d|b len d|d]; cbn [reject_entry wloc_wf] in *.
     + discriminate.
-    + destruct (b =? e0); [inversion Ere; reflexivity|]. destruct hb; [discriminate|]. inversion Ere; reflexivity.
-    + destruct (addr_eqb b e0); [inversion Ere; reflexivity|]. destruct hb; [|discriminate]. inversion Ere; reflexivity.
-    + destruct Hxw as [Hb Hl]. destruct b as [v|s z]; cbn [start_length_end addr_wf] in *.
-      * unfold chk_add. destruct (v + len <? 2 ^ 64) eqn:Es; [|discriminate]. cbn [bind addr_eqb].
+    + destruct (b =? e0); [inversion Ere; reflexivity|]. destruct hb; cbn [negb] in *; [|inversion Ere; reflexivity].
+      destruct (b =? marker asz); [inversion Ere; reflexivity|discriminate].
+    + destruct (addr_eqb b e0); [inversion Ere; reflexivity|]. destruct hb; [inversion Ere; reflexivity|].
+      destruct (addr_eqb b (AConst (marker asz))); [inversion Ere; reflexivity|discriminate].
+    + destruct Hxw as [Hb Hl]. destruct b as [v|s z]; cbn [start_length_end addr_wf sum_fits] in *.
+      * destruct (v + len <? 2 ^ 64) eqn:Es; cbn [negb] in Ere; [|inversion Ere; reflexivity]. cbn [bind addr_eqb].
         destruct (len =? 0) eqn:El.
         -- inversion Ere; subst. assert (len = 0) by lia; subst. rewrite N.add_0_r, N.eqb_refl. reflexivity.
-        -- destruct (v =? v + len) eqn:Ev; [lia|]. destruct hb; [|discriminate]. inversion Ere; reflexivity.
-      * unfold chk_s. change (in_signed 64 (z + to_i64 len)) with (in_i64 (z + to_i64 len)). rewrite Hpl. cbn [bind addr_eqb].
+        -- destruct (v =? v + len) eqn:Ev; [lia|]. destruct hb; [inversion Ere; reflexivity|].
+           cbn [addr_eqb] in Ere.
+           destruct (v =? marker asz); [inversion Ere; reflexivity|discriminate].
+      * destruct (len <? 2 ^ 63) eqn:E63; cbn [andb negb] in Ere; [|inversion Ere; reflexivity].
+        destruct (in_i64 (z + Z.of_N len)) eqn:Ei; cbn [negb] in Ere; [|inversion Ere; reflexivity].
+        cbn [bind addr_eqb]. rewrite N.eqb_refl. cbn [andb].
         destruct (len =? 0) eqn:El.
-        -- inversion Ere; subst. assert (len = 0) by lia; subst. change (to_i64 0) with 0%Z.
-           rewrite Z.add_0_r, N.eqb_refl, Z.eqb_refl. reflexivity.
-        -- pose proof (lw_to_i64_nonzero len Hl ltac:(lia)) as Hnz. rewrite N.eqb_refl. cbn [andb].
-           destruct (z =? z + to_i64 len)%Z eqn:Ez; [lia|]. destruct hb; [|discriminate]. inversion Ere; reflexivity.
+        -- inversion Ere; subst. assert (len = 0) by lia; subst. change (Z.of_N 0) with 0%Z.
+           rewrite Z.add_0_r, Z.eqb_refl. reflexivity.
+        -- destruct (z =? z + Z.of_N len)%Z eqn:Ez; [lia|]. destruct hb; [inversion Ere; reflexivity|]. discriminate.
     + inversion Ere; reflexivity.
   - (* x is plain; the error comes from the rest *)
     apply andb_prop in Hpl. destruct Hpl as [Hp Hpl].
     specialize (IH _ _ Hr Hrej Hpl).
     destruct x as [a|b e0 d|b e0 d|b len d|d]; cbn [reject_entry plainb is_base wloc_wf] in *.
     + destruct a as [v|s z]; [|discriminate]. rewrite orb_true_r in IH.
-      rewrite (lw_ones_sized_valid dbg _ Hs). cbn [bind].
-      destruct (lw_mask_pos _ Hs) as [_ Hmf].
       rewrite (lw_write_udata_fits be _ _ Hs Hmf). cbn [bind write_address].
       rewrite (lw_write_udata_fits be _ _ Hs) by lia. cbn [bind]. rewrite IH. reflexivity.
-    + destruct (b =? e0); [discriminate|]. destruct hb; [|discriminate]. cbn [negb orb] in *.
+    + destruct (b =? e0); [discriminate|]. destruct hb; cbn [negb] in *; [|discriminate].
+      destruct (b =? marker asz); [discriminate|]. cbn [orb] in *.
       rewrite !(lw_write_udata_fits be _ _ Hs) by lia. cbn [bind].
       destruct (lw_opt_expr4_fits loc be version d Hv ltac:(lia)) as [xx ->]. cbn [bind]. rewrite IH. reflexivity.
     + destruct b as [vb|s z]; [|discriminate]. destruct e0 as [ve|s z]; [|discriminate].
-      destruct (addr_eqb (AConst vb) (AConst ve)); [discriminate|]. destruct hb; [discriminate|]. cbn [orb write_address] in *.
+      destruct (addr_eqb (AConst vb) (AConst ve)); [discriminate|]. destruct hb; [discriminate|].
+      destruct (addr_eqb (AConst vb) (AConst (marker asz))); [discriminate|]. cbn [orb write_address] in *.
       rewrite !(lw_write_udata_fits be _ _ Hs) by lia. cbn [bind].
       destruct (lw_opt_expr4_fits loc be version d Hv ltac:(lia)) as [xx ->]. cbn [bind]. rewrite IH. reflexivity.
-    + destruct b as [vb|s z]; [|discriminate].
-      destruct (len =? 0) eqn:El; [discriminate|]. destruct hb; [discriminate|]. cbn [orb] in *.
-      cbn [start_length_end]. unfold chk_add. destruct (vb + len <? 2 ^ 64) eqn:Es; [|lia]. cbn [bind addr_eqb].
+    + destruct b as [vb|s z]; [|discriminate]. cbn [sum_fits] in Ere.
+      destruct (vb + len <? 2 ^ 64) eqn:Es; cbn [negb] in Ere; [|discriminate].
+      destruct (len =? 0) eqn:El; [discriminate|]. destruct hb; [discriminate|].
+      destruct (addr_eqb (AConst vb) (AConst (marker asz))) eqn:Em; [discriminate|]. cbn [orb] in *.
+      cbn [start_length_end]. rewrite Es. cbn [bind addr_eqb].
       destruct (vb =? vb + len) eqn:Ev; [lia|]. cbn [write_address].
       rewrite !(lw_write_udata_fits be _ _ Hs) by lia. cbn [bind].
       destruct (lw_opt_expr4_fits loc be version d Hv ltac:(lia)) as [xx ->]. cbn [bind]. rewrite IH. reflexivity.
     + discriminate.
 Qed.
 
-Lemma lw_tombstone_pos asz : size_ok asz -> (tombstone asz <=? 0) = false.
-Proof. intros [-> | [-> | [-> | ->]]]; vm_compute; reflexivity. Qed.
+(* A4: a list that is not rejected has no emitted non-base pair beginning with the marker *)
+Lemma lw_nomark asz : forall l hb ps,
+  pairs_of l = Some ps -> rejected asz hb l = None -> Forall (pair_nomark asz) ps.
+Proof.
+  induction l as [|x r IH]; intros hb ps Hp Hrej; cbn [pairs_of rejected] in *.
+  - inversion Hp; subst. constructor.
+  - destruct (pair_of x) as [p|] eqn:Ex; [|discriminate].
+    destruct (pairs_of r) as [ps'|] eqn:Er; [|discriminate]. inversion Hp; subst.
+    destruct (reject_entry asz hb x) eqn:Ere; [discriminate|].
+    constructor; [|eapply IH; eauto].
+    destruct x as [[a|s z]|b' e' d'|[b'|s z] [e'|s' z'] d'|[b'|s z] len d'|d']; cbn [pair_of reject_entry] in *;
+      try discriminate; inversion Ex; subst; cbn [pair_nomark]; try exact I.
+    + destruct (b' =? e'); [discriminate|]. destruct (negb hb); [discriminate|].
+      destruct (b' =? marker asz) eqn:E; [discriminate|]. rewrite <- lw_marker_mask. lia.
+    + destruct (addr_eqb (AConst b') (AConst e')); [discriminate|]. destruct hb; [discriminate|].
+      destruct (addr_eqb (AConst b') (AConst (marker asz))) eqn:E; [discriminate|]. cbn [addr_eqb] in E. rewrite <- lw_marker_mask. lia.
+    + destruct (negb (sum_fits (LStartLength (AConst b') len d'))); [discriminate|].
+      destruct (len =? 0); [discriminate|]. destruct hb; [discriminate|].
+      destruct (addr_eqb (AConst b') (AConst (marker asz))) eqn:E; [discriminate|]. cbn [addr_eqb] in E. rewrite <- lw_marker_mask. lia.
+Qed.
 
 (* R4: for a list the pair format accepts, reading the pairs relative to the base means the same as the list.
    hb = false (no base address in force) implies that the reader's base is 0: address pairs are absolute. *)
 Lemma lw_resolve_pairs loc asz : size_ok asz -> forall l hb base ps es,
-  rejected hb l = None -> (hb = false -> base = 0) ->
+  rejected asz hb l = None -> (hb = false -> base = 0) ->
   pairs_of l = Some ps -> ents_of l = Some es -> Forall (pair_ok loc asz) ps ->
   resolve asz base ps = resolve asz base es.
 Proof.
@@ -794,7 +804,7 @@ Proof.
     destruct (ents_of r) as [es'|] eqn:Eer; [|discriminate].
     inversion Hp; inversion He; subst ps es. clear Hp He.
     inversion Hok as [|? ? Hpo Hok']; subst.
-    destruct (reject_entry hb x) eqn:Ere; [discriminate|].
+    destruct (reject_entry asz hb x) eqn:Ere; [discriminate|].
     destruct x as [[a|s z]|b e d|[vb|s z] [ve|s' z'] d|[vb|s z] len d|d];
       cbn [pair_of ent_of reject_entry is_base] in *; try discriminate;
       inversion Ep; inversion Ee; subst p en; clear Ep Ee.
@@ -808,78 +818,64 @@ Proof.
       rewrite !N.add_0_l, !N.mod_small by assumption.
       rewrite (IH false 0 ps' es') by (try assumption; reflexivity). reflexivity.
     + (* start length *)
+      destruct (negb (sum_fits (LStartLength (AConst vb) len d))); [discriminate|].
       destruct (len =? 0); [discriminate|]. destruct hb; [discriminate|].
       rewrite (Hb eq_refl) in *. cbn [resolve]. rewrite Ht.
       cbn [pair_ok] in Hpo. destruct Hpo as [Hvb [Hve _]].
-      rewrite !N.add_0_l, (N.mod_small vb) by assumption.
-      rewrite (IH false 0 ps' es') by (try assumption; reflexivity).
-      f_equal. f_equal.
-      unfold amod in *.
-      destruct Hs as [-> | [-> | [-> | ->]]];
-        [change (2 ^ (8 * 1)) with 256 in * | change (2 ^ (8 * 2)) with 65536 in *
-        | change (2 ^ (8 * 4)) with 4294967296 in * | change (2 ^ (8 * 8)) with 18446744073709551616 in * ];
-        change (2 ^ 64) with 18446744073709551616 in *; lia.
+      rewrite !N.add_0_l, !N.mod_small by assumption.
+      rewrite (IH false 0 ps' es') by (try assumption; reflexivity). reflexivity.
 Qed.
 
-(* write_read_v4 for one list *)
-Lemma lw_write_read_v4_list dbg dbg' loc be version asz hb base l bs :
-  write_list_v4 dbg loc be version asz hb l = Ok bs -> version <= 4 -> Forall (wf loc) l ->
-  ~ marker_clash asz l -> (hb = false -> base = 0) ->
+(* write_read_v4 for one list: no side condition any more *)
+Lemma lw_write_read_v4_list dbg' loc be version asz hb base l bs :
+  write_list_v4 loc be version asz (marker asz) hb l = Ok bs -> version <= 4 -> Forall (wf loc) l ->
+  (hb = false -> base = 0) ->
   exists ps es, pairs_of l = Some ps /\ ents_of l = Some es /\
     (forall rest, dec4 dbg' loc be asz (bs ++ rest) = Ok (ps, rest)) /\
     resolve asz base ps = resolve asz base es.
 Proof.
-  intros H Hv Hwf Hc Hb.
-  destruct (lw_write_v4_enc _ _ _ _ _ _ _ _ H Hv Hwf) as [Hs [ps [Hp [Hok ->]]]].
+  intros H Hv Hwf Hb.
+  destruct (lw_write_v4_enc _ _ _ _ _ _ _ H Hv Hwf) as [Hs [ps [Hp [Hok ->]]]].
   destruct (lw_pairs_ents _ _ Hp) as [es He].
-  pose proof (lw_nomark _ _ _ Hp Hc) as Hnm.
+  pose proof (lw_never_bytes _ _ _ _ _ _ _ H Hwf) as Hrej.
+  pose proof (lw_nomark _ _ _ _ Hp Hrej) as Hnm.
   exists ps, es. split; [exact Hp|]. split; [exact He|]. split.
   - intros rest. apply lw_dec4_enc_full; assumption.
-  - eapply lw_resolve_pairs; eauto. eapply lw_never_bytes; eauto.
+  - eapply lw_resolve_pairs; eauto.
 Qed.
 
 (* table level *)
-Lemma lw_write_read_v4 dbg dbg' loc be version asz hb base start tbl out offs (sec0 : list byte) :
-  write_tbl_v4 dbg loc be version asz hb start tbl = Ok (out, offs) ->
+Lemma lw_write_read_v4 dbg' loc be version asz hb base start tbl out offs (sec0 : list byte) :
+  write_tbl_v4 loc be version asz hb start tbl = Ok (out, offs) ->
   N.of_nat (length sec0) = start -> version <= 4 -> Forall (Forall (wf loc)) tbl ->
   (hb = false -> base = 0) ->
   length offs = length tbl /\
-  forall i l, nth_error tbl i = Some l -> ~ marker_clash asz l ->
+  forall i l, nth_error tbl i = Some l ->
     exists o ps es rest, nth_error offs i = Some o /\ ents_of l = Some es /\
       dec4 dbg' loc be asz (at_offset o (sec0 ++ out)) = Ok (ps, rest) /\
       resolve asz base ps = resolve asz base es.
 Proof.
-  intros H Hs Hv Hwf Hb. rewrite lw_tbl_v4_gen in H.
+  intros H Hs Hv Hwf Hb. unfold write_tbl_v4 in H. bind_ok H.
+  destruct (lw_marker_of_ok _ _ E) as [_ ->]. rewrite lw_lists_v4_gen in H.
   destruct (lw_tbl_gen_nth _ _ _ _ _ sec0 H Hs) as [Hlen Hn]. split; [exact Hlen|].
-  intros i l Hl Hc. destruct (Hn i l Hl) as [o [bs [post [Ho [Hw Hat]]]]].
+  intros i l Hl. destruct (Hn i l Hl) as [o [bs [post [Ho [Hw Hat]]]]].
   rewrite Forall_forall in Hwf. assert (Hwl : Forall (wf loc) l) by (apply Hwf; eapply nth_error_In; eauto).
-  destruct (lw_write_read_v4_list _ dbg' _ _ _ _ _ base _ _ Hw Hv Hwl Hc Hb) as [ps [es [Hp [He [Hd Hr]]]]].
+  destruct (lw_write_read_v4_list dbg' _ _ _ _ _ base _ _ Hw Hv Hwl Hb) as [ps [es [Hp [He [Hd Hr]]]]].
   exists o, ps, es, post. split; [exact Ho|]. split; [exact He|]. split; [|exact Hr].
   rewrite Hat. apply Hd.
 Qed.
 
-(* ---- ambiguity ---- *)
-
-(* what holds: every emitted pair fits and no emitted non-terminator pair is (0,0) *)
-Lemma lw_ambiguity_zero dbg loc be version asz hb l bs :
-  write_list_v4 dbg loc be version asz hb l = Ok bs -> version <= 4 -> Forall (wf loc) l ->
+(* ---- ambiguity: both halves hold for the repaired writers ---- *)
+Lemma lw_ambiguity loc be version asz hb l bs :
+  write_list_v4 loc be version asz (marker asz) hb l = Ok bs -> version <= 4 -> Forall (wf loc) l ->
   exists ps, pairs_of l = Some ps /\ bs = enc_list4 loc be asz ps /\
-    Forall (fun p => match p with EPair b e _ => ~ (b = 0 /\ e = 0) | _ => True end) ps.
+    Forall (fun p => match p with EPair b e _ => ~ (b = 0 /\ e = 0) /\ b <> amod asz - 1 | _ => True end) ps.
 Proof.
-  intros H Hv Hwf. destruct (lw_write_v4_enc _ _ _ _ _ _ _ _ H Hv Hwf) as [_ [ps [Hp [Hok Hb]]]].
+  intros H Hv Hwf. destruct (lw_write_v4_enc _ _ _ _ _ _ _ H Hv Hwf) as [_ [ps [Hp [Hok Hb]]]].
+  pose proof (lw_nomark _ _ _ _ Hp (lw_never_bytes _ _ _ _ _ _ _ H Hwf)) as Hnm.
   exists ps. split; [exact Hp|]. split; [exact Hb|].
-  eapply Forall_impl; [|exact Hok]. intros p Hpo. destruct p; cbn [pair_ok] in Hpo; try exact I. tauto.
-Qed.
-
-(* what holds only outside the known class: no emitted non-base pair begins with the all-ones marker *)
-Lemma lw_ambiguity_marker dbg loc be version asz hb l bs :
-  write_list_v4 dbg loc be version asz hb l = Ok bs -> version <= 4 -> Forall (wf loc) l ->
-  ~ marker_clash asz l ->
-  exists ps, pairs_of l = Some ps /\ bs = enc_list4 loc be asz ps /\
-    Forall (fun p => match p with EPair b _ _ => b <> amod asz - 1 | _ => True end) ps.
-Proof.
-  intros H Hv Hwf Hc. destruct (lw_write_v4_enc _ _ _ _ _ _ _ _ H Hv Hwf) as [_ [ps [Hp [Hok Hb]]]].
-  exists ps. split; [exact Hp|]. split; [exact Hb|]. exact (lw_nomark _ _ _ Hp Hc).
+  rewrite Forall_forall in *. intros p Hin. specialize (Hok p Hin). specialize (Hnm p Hin).
+  destruct p; cbn [pair_ok pair_nomark] in *; try exact I. split; [tauto|exact Hnm].
 Qed.
 
 (* ================================================================ Part 4b: de-duplication (FnvIndexSet::insert_full) *)
@@ -1127,66 +1123,46 @@ Proof.
   - intros [body offs] _. apply lw_np_bind; [apply lw_np_initial_length|intros; apply lw_np_ok].
 Qed.
 
-(* the inputs on which the pre-v5 writers cannot panic: release builds, or a sane address size and no
-   StartLength sum that overflows the Rust integer type *)
-Definition panic_free_input (dbg : bool) (asz : N) (l : list wloc) : Prop :=
-  dbg = false \/ (1 <= asz <= 8 /\ Forall (fun x => sum_fits x = true) l).
 
-Lemma lw_np_ones_sized dbg asz : dbg = false \/ 1 <= asz <= 8 -> np (ones_sized dbg asz).
+Lemma lw_np_sle b len : np (start_length_end b len).
 Proof.
-  intros [-> | H].
-  - unfold ones_sized, chk_mul, chk_sub.
-    destruct (asz * 8 <? 2 ^ 8); cbn [bind];
-      match goal with |- np (bind (if ?c then _ else _) _) => destruct c end; cbn [bind];
-      match goal with |- np (if ?c then _ else _) => destruct c end; apply lw_np_ok.
-  - assert (Hc : asz = 1 \/ asz = 2 \/ asz = 3 \/ asz = 4 \/ asz = 5 \/ asz = 6 \/ asz = 7 \/ asz = 8) by lia.
-    destruct Hc as [-> | [-> | [-> | [-> | [-> | [-> | [-> | ->]]]]]]]; destruct dbg; vm_compute; split; discriminate.
+  destruct b as [v|s z]; cbn [start_length_end].
+  - destruct (v + len <? 2 ^ 64); [apply lw_np_ok|apply lw_np_err].
+  - destruct (len <? 2 ^ 63); [|apply lw_np_err]. destruct (in_i64 (z + Z.of_N len)); [apply lw_np_ok|apply lw_np_err].
 Qed.
 
-Lemma lw_np_sle dbg b len : dbg = false \/ sum_fits (LStartLength b len []) = true -> np (start_length_end dbg b len).
+(* since the repair no operation of the pre-v5 writers can overflow: no side condition on the input *)
+Lemma lw_np_list_v4 loc be version asz mk : forall l hb,
+  Forall (wf loc) l -> np (write_list_v4 loc be version asz mk hb l).
 Proof.
-  intros H. destruct b as [v|s z]; cbn [start_length_end sum_fits] in *.
-  - unfold chk_add. destruct (v + len <? 2 ^ 64) eqn:E; cbn [bind]; [apply lw_np_ok|].
-    destruct H as [-> | H]; [apply lw_np_ok|discriminate].
-  - unfold chk_s. change (in_signed 64 (z + to_i64 len)) with (in_i64 (z + to_i64 len)).
-    destruct (in_i64 (z + to_i64 len)) eqn:E; cbn [bind]; [apply lw_np_ok|].
-    destruct H as [-> | H]; [apply lw_np_ok|discriminate].
-Qed.
-
-Lemma lw_np_list_v4 dbg loc be version asz : forall l hb,
-  Forall (wf loc) l -> panic_free_input dbg asz l -> np (write_list_v4 dbg loc be version asz hb l).
-Proof.
-  induction l as [|x r IH]; intros hb Hwf Hpf; cbn [write_list_v4].
+  induction l as [|x r IH]; intros hb Hwf; cbn [write_list_v4].
   - repeat np_step.
   - inversion Hwf as [|? ? [Hw [Hd _]] Hr]; subst.
-    assert (Hpf' : panic_free_input dbg asz r).
-    { destruct Hpf as [-> | [Ha Hf]]; [now left|right]. inversion Hf; subst. auto. }
-    assert (Hone : dbg = false \/ 1 <= asz <= 8) by (destruct Hpf as [-> | [Ha _]]; auto).
     destruct x as [a|b e d|b e d|b len d|d]; cbn [wloc_wf data_of] in *.
-    + apply lw_np_bind; [now apply lw_np_ones_sized|intros ? _]. repeat np_step. now apply IH.
-    + destruct (b =? e); [apply lw_np_err|]. destruct (negb hb); [apply lw_np_err|]. repeat np_step. now apply IH.
-    + destruct (addr_eqb b e); [apply lw_np_err|]. destruct hb; [apply lw_np_err|]. repeat np_step. now apply IH.
-    + apply lw_np_bind.
-      * apply lw_np_sle. destruct Hpf as [-> | [_ Hf]]; [now left|right]. inversion Hf as [|? ? Hx _]; subst.
-        destruct b; exact Hx.
-      * intros e' _. destruct (addr_eqb b e'); [apply lw_np_err|]. destruct hb; [apply lw_np_err|].
-        repeat np_step. now apply IH.
+    + repeat np_step. now apply IH.
+    + destruct (b =? e); [apply lw_np_err|]. destruct (negb hb); [apply lw_np_err|].
+      destruct (b =? mk); [apply lw_np_err|]. repeat np_step. now apply IH.
+    + destruct (addr_eqb b e); [apply lw_np_err|]. destruct hb; [apply lw_np_err|].
+      destruct (addr_eqb b (AConst mk)); [apply lw_np_err|]. repeat np_step. now apply IH.
+    + apply lw_np_bind; [apply lw_np_sle|].
+      intros e' _. destruct (addr_eqb b e'); [apply lw_np_err|]. destruct hb; [apply lw_np_err|].
+      destruct (addr_eqb b (AConst mk)); [apply lw_np_err|]. repeat np_step. now apply IH.
     + apply lw_np_err.
 Qed.
 
-Lemma lw_np_tbl_v4 dbg loc be version asz hb start tbl :
-  Forall (Forall (wf loc)) tbl -> Forall (panic_free_input dbg asz) tbl ->
-  np (write_tbl_v4 dbg loc be version asz hb start tbl).
+Lemma lw_np_tbl_v4 loc be version asz hb start tbl :
+  Forall (Forall (wf loc)) tbl -> np (write_tbl_v4 loc be version asz hb start tbl).
 Proof.
-  intros Hwf Hpf. rewrite lw_tbl_v4_gen. apply lw_np_tbl_gen.
-  rewrite Forall_forall in *. intros l Hl. apply lw_np_list_v4; auto.
+  intros Hwf. unfold write_tbl_v4. apply lw_np_bind.
+  - unfold marker_of. destruct ((1 <=? asz) && (asz <=? 8)); [apply lw_np_ok|apply lw_np_err].
+  - intros mk _. rewrite lw_lists_v4_gen. apply lw_np_tbl_gen.
+    rewrite Forall_forall in *. intros l Hl. apply lw_np_list_v4; auto.
 Qed.
 
-Lemma lw_np_table_write dbg loc be fmt64 version asz hb start tbl :
-  Forall (Forall (wf loc)) tbl -> Forall (panic_free_input dbg asz) tbl ->
-  np (table_write dbg loc be fmt64 version asz hb start tbl).
+Lemma lw_np_table_write loc be fmt64 version asz hb start tbl :
+  Forall (Forall (wf loc)) tbl -> np (table_write loc be fmt64 version asz hb start tbl).
 Proof.
-  intros Hwf Hpf. unfold table_write. destruct tbl as [|l r]; [apply lw_np_ok|].
+  intros Hwf. unfold table_write. destruct tbl as [|l r]; [apply lw_np_ok|].
   destruct ((2 <=? version) && (version <=? 4)); [now apply lw_np_tbl_v4|].
   destruct (version =? 5); [now apply lw_np_tbl_v5|apply lw_np_err].
 Qed.
@@ -1206,22 +1182,21 @@ Proof.
   apply in_map_iff in Hx. destruct Hx as [r [<- _]]. now apply lw_wf_range.
 Qed.
 
-Lemma lw_np_unit dbg be fmt64 version asz attrs rstart lstart rtbl ltbl :
+Lemma lw_np_unit be fmt64 version asz attrs rstart lstart rtbl ltbl :
   Forall (Forall wloc_wf) (map (map loc_of_range) rtbl) -> Forall (Forall (wf true)) ltbl ->
-  Forall (panic_free_input dbg asz) (map (map loc_of_range) rtbl) -> Forall (panic_free_input dbg asz) ltbl ->
-  np (unit_write_lists dbg be fmt64 version asz attrs rstart lstart rtbl ltbl).
+  np (unit_write_lists be fmt64 version asz attrs rstart lstart rtbl ltbl).
 Proof.
-  intros Hr Hl Hpr Hpl. unfold unit_write_lists.
+  intros Hr Hl. unfold unit_write_lists.
   destruct (negb ((2 <=? version) && (version <=? 5))); [apply lw_np_err|].
-  apply lw_np_bind; [apply lw_np_table_write; [now apply lw_wf_map_range|assumption]|intros ? _].
+  apply lw_np_bind; [apply lw_np_table_write; now apply lw_wf_map_range|intros ? _].
   apply lw_np_bind; [now apply lw_np_table_write|intros ? _].
   apply lw_np_bind; [apply lw_np_root_attrs|intros; apply lw_np_ok].
 Qed.
 
 (* ================================================================ Part 7: RangeListTable::write / LocationListTable::write / Unit::write *)
 
-Lemma lw_table_read_v5 dbg dbg' loc be fmt64 asz hb start tbl out offs (sec0 : list byte) :
-  table_write dbg loc be fmt64 5 asz hb start tbl = Ok (out, offs) ->
+Lemma lw_table_read_v5 dbg' loc be fmt64 asz hb start tbl out offs (sec0 : list byte) :
+  table_write loc be fmt64 5 asz hb start tbl = Ok (out, offs) ->
   N.of_nat (length sec0) = start -> Forall (Forall (wf loc)) tbl ->
   length offs = length tbl /\
   forall i l, nth_error tbl i = Some l ->
@@ -1234,12 +1209,12 @@ Proof.
     eapply lw_write_read_v5; eauto.
 Qed.
 
-Lemma lw_table_read_v4 dbg dbg' loc be fmt64 version asz hb base start tbl out offs (sec0 : list byte) :
-  table_write dbg loc be fmt64 version asz hb start tbl = Ok (out, offs) ->
+Lemma lw_table_read_v4 dbg' loc be fmt64 version asz hb base start tbl out offs (sec0 : list byte) :
+  table_write loc be fmt64 version asz hb start tbl = Ok (out, offs) ->
   2 <= version <= 4 ->
   N.of_nat (length sec0) = start -> Forall (Forall (wf loc)) tbl -> (hb = false -> base = 0) ->
   length offs = length tbl /\
-  forall i l, nth_error tbl i = Some l -> ~ marker_clash asz l ->
+  forall i l, nth_error tbl i = Some l ->
     exists o ps es rest, nth_error offs i = Some o /\ ents_of l = Some es /\
       dec4 dbg' loc be asz (at_offset o (sec0 ++ out)) = Ok (ps, rest) /\
       resolve asz base ps = resolve asz base es.
@@ -1263,8 +1238,10 @@ Definition unit_wf (rtbl : list (list wrange)) (ltbl : list (list wloc)) : Prop 
 
 (* Unit::write, DWARF 5: every added list is found at the offset recorded for its id and decodes to exactly its
    entries; hence it means, relative to ANY base address, what the written list means *)
-Lemma lw_unit_read_v5 dbg dbg' be fmt64 asz attrs rstart lstart rtbl ltbl rb ro lb lo (rsec lsec : list byte) base :
-  unit_write_lists dbg be fmt64 5 asz attrs rstart lstart rtbl ltbl = Ok ((rb, ro), (lb, lo)) ->
+(* Unit::write, DWARF 5: every added list is found at the offset recorded for its id and decodes to exactly its
+   entries; hence it means, relative to ANY base address, what the written list means *)
+Lemma lw_unit_read_v5 dbg' be fmt64 asz attrs rstart lstart rtbl ltbl rb ro lb lo (rsec lsec : list byte) base :
+  unit_write_lists be fmt64 5 asz attrs rstart lstart rtbl ltbl = Ok ((rb, ro), (lb, lo)) ->
   N.of_nat (length rsec) = rstart -> N.of_nat (length lsec) = lstart -> unit_wf rtbl ltbl ->
   (forall i l, nth_error rtbl i = Some l ->
      exists o es rest, nth_error ro i = Some o /\
@@ -1280,26 +1257,26 @@ Proof.
   unfold unit_write_lists. change (negb ((2 <=? 5) && (5 <=? 5))) with false. cbv iota.
   intros H Hrs Hls [Hwr Hwl]. bind_ok H. bind_ok H. bind_ok H. inversion H; subst. split.
   - intros i l Hl.
-    destruct (lw_table_read_v5 _ dbg' _ _ _ _ _ _ _ _ _ rsec E eq_refl (lw_wf_map_range _ Hwr)) as [_ Hn].
+    destruct (lw_table_read_v5 dbg' _ _ _ _ _ _ _ _ _ rsec E eq_refl (lw_wf_map_range _ Hwr)) as [_ Hn].
     destruct (Hn i (map loc_of_range l) (map_nth_error _ _ _ Hl)) as [o [es [rest [Ho [He Hd]]]]].
     exists o, es, rest. repeat split; try assumption. now apply lw_meaning_rng.
   - intros i l Hl.
-    destruct (lw_table_read_v5 _ dbg' _ _ _ _ _ _ _ _ _ lsec E0 eq_refl Hwl) as [_ Hn].
+    destruct (lw_table_read_v5 dbg' _ _ _ _ _ _ _ _ _ lsec E0 eq_refl Hwl) as [_ Hn].
     destruct (Hn i l Hl) as [o [es [rest [Ho [He Hd]]]]].
     exists o, es, rest. repeat split; try assumption. now apply lw_meaning_loc.
 Qed.
 
-(* Unit::write, DWARF 2-4: outside the marker-clash class every added list reads back, through the unit's base
-   address as the reader derives it from the root DIE, as what the written list means *)
-Lemma lw_unit_read_v4 dbg dbg' be fmt64 version asz attrs rstart lstart rtbl ltbl rb ro lb lo (rsec lsec : list byte) :
-  unit_write_lists dbg be fmt64 version asz attrs rstart lstart rtbl ltbl = Ok ((rb, ro), (lb, lo)) ->
+(* Unit::write, DWARF 2-4: EVERY added list reads back, through the unit's base address as the reader derives it
+   from the root DIE, as what the written list means *)
+Lemma lw_unit_read_v4 dbg' be fmt64 version asz attrs rstart lstart rtbl ltbl rb ro lb lo (rsec lsec : list byte) :
+  unit_write_lists be fmt64 version asz attrs rstart lstart rtbl ltbl = Ok ((rb, ro), (lb, lo)) ->
   2 <= version <= 4 ->
   N.of_nat (length rsec) = rstart -> N.of_nat (length lsec) = lstart -> unit_wf rtbl ltbl ->
-  (forall i l, nth_error rtbl i = Some l -> ~ marker_clash asz (map loc_of_range l) ->
+  (forall i l, nth_error rtbl i = Some l ->
      exists o ps rest, nth_error ro i = Some o /\
        dec4 dbg' false be asz (at_offset o (rsec ++ rb)) = Ok (ps, rest) /\
        meaning_rng asz (unit_base attrs) l = Some (map fst (resolve asz (unit_base attrs) ps))) /\
-  (forall i l, nth_error ltbl i = Some l -> ~ marker_clash asz l ->
+  (forall i l, nth_error ltbl i = Some l ->
      exists o ps rest, nth_error lo i = Some o /\
        dec4 dbg' true be asz (at_offset o (lsec ++ lb)) = Ok (ps, rest) /\
        meaning_loc asz (unit_base attrs) l = Some (resolve asz (unit_base attrs) ps)).
@@ -1308,79 +1285,76 @@ Proof.
   destruct (negb ((2 <=? version) && (version <=? 5))); [discriminate|].
   bind_ok H. bind_ok H. bind_ok H. inversion H; subst.
   pose proof (lw_base_from_root attrs) as Hb. fold base in Hb. split.
-  - intros i l Hl Hc.
-    destruct (lw_table_read_v4 _ dbg' _ _ _ _ _ _ base _ _ _ _ rsec E Hv eq_refl (lw_wf_map_range _ Hwr) Hb) as [_ Hn].
-    destruct (Hn i (map loc_of_range l) (map_nth_error _ _ _ Hl) Hc) as [o [ps [es [rest [Ho [He [Hd Hr]]]]]]].
+  - intros i l Hl.
+    destruct (lw_table_read_v4 dbg' _ _ _ _ _ _ base _ _ _ _ rsec E Hv eq_refl (lw_wf_map_range _ Hwr) Hb) as [_ Hn].
+    destruct (Hn i (map loc_of_range l) (map_nth_error _ _ _ Hl)) as [o [ps [es [rest [Ho [He [Hd Hr]]]]]]].
     exists o, ps, rest. repeat split; try assumption. rewrite Hr. now apply lw_meaning_rng.
-  - intros i l Hl Hc.
-    destruct (lw_table_read_v4 _ dbg' _ _ _ _ _ _ base _ _ _ _ lsec E0 Hv eq_refl Hwl Hb) as [_ Hn].
-    destruct (Hn i l Hl Hc) as [o [ps [es [rest [Ho [He [Hd Hr]]]]]]].
+  - intros i l Hl.
+    destruct (lw_table_read_v4 dbg' _ _ _ _ _ _ base _ _ _ _ lsec E0 Hv eq_refl Hwl Hb) as [_ Hn].
+    destruct (Hn i l Hl) as [o [ps [es [rest [Ho [He [Hd Hr]]]]]]].
     exists o, ps, rest. repeat split; try assumption. rewrite Hr. now apply lw_meaning_loc.
 Qed.
 
 (* rejects, through Unit::write with one list *)
-Lemma lw_rejects_unit_rng dbg be fmt64 version asz attrs rstart lstart (l : list wrange) e :
+Lemma lw_rejects_unit_rng be fmt64 version asz attrs rstart lstart (l : list wrange) e :
   size_ok asz -> 2 <= version <= 4 -> Forall wloc_wf (map loc_of_range l) ->
-  rejected (have_base_address attrs) (map loc_of_range l) = Some e ->
+  rejected asz (have_base_address attrs) (map loc_of_range l) = Some e ->
   plain_until_reject asz (have_base_address attrs) (map loc_of_range l) = true ->
-  unit_write_lists dbg be fmt64 version asz attrs rstart lstart [l] [] = Err e.
+  unit_write_lists be fmt64 version asz attrs rstart lstart [l] [] = Err e.
 Proof.
   intros Hs Hv Hwf Hr Hp. unfold unit_write_lists.
   destruct (negb ((2 <=? version) && (version <=? 5))) eqn:E; [lia|].
   cbn [map table_write]. destruct ((2 <=? version) && (version <=? 4)) eqn:E4; [|lia].
-  cbn [write_tbl_v4]. rewrite (lw_rejects dbg false be version asz Hs ltac:(lia) _ _ _ Hwf Hr Hp). reflexivity.
+  unfold write_tbl_v4. rewrite (lw_marker_of_valid _ Hs). cbn [bind write_lists_v4].
+  rewrite (lw_rejects false be version asz Hs ltac:(lia) _ _ _ Hwf Hr Hp). reflexivity.
 Qed.
 
-Lemma lw_rejects_unit_loc dbg be fmt64 version asz attrs rstart lstart (l : list wloc) e :
+Lemma lw_rejects_unit_loc be fmt64 version asz attrs rstart lstart (l : list wloc) e :
   size_ok asz -> 2 <= version <= 4 -> Forall wloc_wf l ->
-  rejected (have_base_address attrs) l = Some e ->
+  rejected asz (have_base_address attrs) l = Some e ->
   plain_until_reject asz (have_base_address attrs) l = true ->
-  unit_write_lists dbg be fmt64 version asz attrs rstart lstart [] [l] = Err e.
+  unit_write_lists be fmt64 version asz attrs rstart lstart [] [l] = Err e.
 Proof.
   intros Hs Hv Hwf Hr Hp. unfold unit_write_lists.
   destruct (negb ((2 <=? version) && (version <=? 5))) eqn:E; [lia|].
   cbn [map table_write bind]. destruct ((2 <=? version) && (version <=? 4)) eqn:E4; [|lia].
-  cbn [write_tbl_v4]. rewrite (lw_rejects dbg true be version asz Hs ltac:(lia) _ _ _ Hwf Hr Hp). reflexivity.
+  unfold write_tbl_v4. rewrite (lw_marker_of_valid _ Hs). cbn [bind write_lists_v4].
+  rewrite (lw_rejects true be version asz Hs ltac:(lia) _ _ _ Hwf Hr Hp). reflexivity.
+Qed.
+
+(* an address size outside 1..8 is refused before anything is written, whatever the lists are *)
+Lemma lw_rejects_bad_address_size loc be fmt64 version asz hb start tbl :
+  2 <= version <= 4 -> ~ (1 <= asz <= 8) -> tbl <> [] ->
+  table_write loc be fmt64 version asz hb start tbl = Err WUnsupportedWordSize.
+Proof.
+  intros Hv Ha Ht. unfold table_write. destruct tbl as [|l r]; [contradiction|].
+  destruct ((2 <=? version) && (version <=? 4)) eqn:E; [|lia].
+  unfold write_tbl_v4. rewrite (lw_marker_of_bad _ Ha). reflexivity.
+Qed.
+
+Lemma lw_rejects_unit_bad_address_size be fmt64 version asz attrs rstart lstart rtbl ltbl :
+  2 <= version <= 4 -> ~ (1 <= asz <= 8) -> rtbl <> [] \/ ltbl <> [] ->
+  unit_write_lists be fmt64 version asz attrs rstart lstart rtbl ltbl = Err WUnsupportedWordSize.
+Proof.
+  intros Hv Ha Ht. unfold unit_write_lists.
+  destruct (negb ((2 <=? version) && (version <=? 5))) eqn:E; [lia|].
+  destruct rtbl as [|l r].
+  - cbn [map table_write bind]. destruct Ht as [Ht|Ht]; [contradiction|].
+    rewrite (lw_rejects_bad_address_size true be fmt64 version asz _ lstart ltbl Hv Ha Ht). reflexivity.
+  - rewrite (lw_rejects_bad_address_size false be fmt64 version asz _ rstart (map (map loc_of_range) (l :: r)) Hv Ha)
+      by (cbn [map]; discriminate). reflexivity.
 Qed.
 
 (* ================================================================ Part 8: statements exported to Properties/C16.v *)
 
-Lemma lwp_ambiguity_marker_refuted_offsetpair : forall dbg : bool,
-  exists l bs ps, Forall (wf false) l /\
-    write_list_v4 dbg false false 4 4 true l = Ok bs /\ pairs_of l = Some ps /\ bs = enc_list4 false false 4 ps /\
-    Exists (fun p => match p with EPair b _ _ => b = amod 4 - 1 | _ => False end) ps.
-Proof.
-  intros dbg. exists [LOffsetPair 4294967295 32 []; LOffsetPair 48 64 []].
-  destruct dbg; (eexists; eexists; split; [|split; [vm_compute; reflexivity|split; [reflexivity|split; [vm_compute; reflexivity|]]]]);
-    try (constructor; reflexivity);
-    repeat constructor; try (vm_compute; reflexivity); try (intros _; eexists (ROffsetPair _ _); reflexivity).
-Qed.
-
-Lemma lwp_ambiguity_marker_refuted_startend : forall dbg : bool,
-  exists bs, write_list_v4 dbg true false 4 4 false [LStartEnd (AConst 4294967295) (AConst 32) [x9c]] = Ok bs /\
-    pairs_of [LStartEnd (AConst 4294967295) (AConst 32) [x9c]] = Some [EPair (amod 4 - 1) 32 [x9c]].
-Proof. intros [|]; eexists; split; vm_compute; reflexivity. Qed.
-
-Lemma lwp_ambiguity_marker_refuted_startlength_release :
-  exists bs, write_list_v4 false false false 4 8 false [LStartLength (AConst (2 ^ 64 - 1)) 33 []] = Ok bs /\
-    pairs_of [LStartLength (AConst (2 ^ 64 - 1)) 33 []] = Some [EPair (amod 8 - 1) 32 []].
-Proof. eexists; split; vm_compute; reflexivity. Qed.
-
-Lemma lwp_write_read_v4_refuted_F8 : forall dbg : bool,
-  let attrs := [(DW_AT_low_pc, VAddress (AConst 4096))] in
-  let l := [ROffsetPair 4294967295 32; ROffsetPair 48 64] in
-  exists rb o ps rest,
-    unit_write_lists dbg false false 4 4 attrs 0 0 [l] [] = Ok ((rb, [o]), ([], [])) /\
-    dec4 dbg false false 4 (at_offset o rb) = Ok (ps, rest) /\
-    map fst (resolve 4 (unit_base attrs) ps) = [(80, 96)] /\
-    meaning_rng 4 (unit_base attrs) l = Some [(4095, 4128); (4144, 4160)].
-Proof. intros [|]; do 4 eexists; repeat split; vm_compute; reflexivity. Qed.
-
-Lemma lwp_one_copy_v4 : forall dbg loc be version asz hb pos tbl body offs,
-  write_tbl_v4 dbg loc be version asz hb pos tbl = Ok (body, offs) ->
-  exists bss, Forall2 (fun l bs => write_list_v4 dbg loc be version asz hb l = Ok bs) tbl bss /\
+Lemma lwp_one_copy_v4 : forall loc be version asz hb pos tbl body offs,
+  write_tbl_v4 loc be version asz hb pos tbl = Ok (body, offs) ->
+  exists bss, Forall2 (fun l bs => write_list_v4 loc be version asz (marker asz) hb l = Ok bs) tbl bss /\
     body = concat bss /\ offs = offsets_from pos bss.
-Proof. intros dbg loc be version asz hb pos tbl body offs H. rewrite lw_tbl_v4_gen in H. exact (lw_tbl_gen_char _ _ _ _ _ H). Qed.
+Proof.
+  intros loc be version asz hb pos tbl body offs H. unfold write_tbl_v4 in H. bind_ok H.
+  destruct (lw_marker_of_ok _ _ E) as [_ ->]. rewrite lw_lists_v4_gen in H. exact (lw_tbl_gen_char _ _ _ _ _ H).
+Qed.
 
 Lemma lwp_one_copy_v5 : forall loc be version asz pos tbl body offs,
   write_lists_v5 loc be version asz pos tbl = Ok (body, offs) ->
@@ -1388,42 +1362,21 @@ Lemma lwp_one_copy_v5 : forall loc be version asz pos tbl body offs,
     body = concat bss /\ offs = offsets_from pos bss.
 Proof. intros loc be version asz pos tbl body offs H. rewrite lw_lists_v5_gen in H. exact (lw_tbl_gen_char _ _ _ _ _ H). Qed.
 
-Lemma lwp_no_panic_refuted_startlength :
-  write_list_v4 true false false 4 8 false [LStartLength (AConst (2 ^ 64 - 1)) 1 []] = Panic /\
-  write_list_v4 true true false 4 8 false [LStartLength (ASym 0 (2 ^ 63 - 1)) 1 []] = Panic.
-Proof. split; vm_compute; reflexivity. Qed.
-
-Lemma lwp_no_panic_refuted_marker :
-  write_list_v4 true false false 4 16 false [LBase (AConst 1)] = Panic /\
-  write_list_v4 true false false 4 0 false [LBase (AConst 1)] = Panic /\
-  write_list_v4 true false false 4 32 false [LBase (AConst 1)] = Panic.
-Proof. repeat split; vm_compute; reflexivity. Qed.
-
-Lemma lwp_no_panic : forall dbg be fmt64 version asz attrs rstart lstart (rtbl : list (list wrange)) (ltbl : list (list wloc)),
+Lemma lwp_no_panic : forall be fmt64 version asz attrs rstart lstart (rtbl : list (list wrange)) (ltbl : list (list wloc)),
   unit_wf rtbl ltbl ->
-  Forall (panic_free_input dbg asz) (map (map loc_of_range) rtbl) -> Forall (panic_free_input dbg asz) ltbl ->
-  unit_write_lists dbg be fmt64 version asz attrs rstart lstart rtbl ltbl <> Panic /\
-  unit_write_lists dbg be fmt64 version asz attrs rstart lstart rtbl ltbl <> OutOfFuel.
-Proof. intros dbg be fmt64 version asz attrs rstart lstart rtbl ltbl [Hr Hl] Hpr Hpl. exact (lw_np_unit dbg be fmt64 version asz attrs rstart lstart rtbl ltbl Hr Hl Hpr Hpl). Qed.
+  unit_write_lists be fmt64 version asz attrs rstart lstart rtbl ltbl <> Panic /\
+  unit_write_lists be fmt64 version asz attrs rstart lstart rtbl ltbl <> OutOfFuel.
+Proof. intros be fmt64 version asz attrs rstart lstart rtbl ltbl [Hr Hl]. exact (lw_np_unit be fmt64 version asz attrs rstart lstart rtbl ltbl Hr Hl). Qed.
 
-Lemma lwp_no_panic_release : forall be fmt64 version asz attrs rstart lstart (rtbl : list (list wrange)) (ltbl : list (list wloc)),
-  unit_wf rtbl ltbl ->
-  unit_write_lists false be fmt64 version asz attrs rstart lstart rtbl ltbl <> Panic.
-Proof.
-  intros be fmt64 version asz attrs rstart lstart rtbl ltbl [Hr Hl].
-  apply (lw_np_unit false be fmt64 version asz attrs rstart lstart rtbl ltbl Hr Hl);
-    apply Forall_forall; intros; left; reflexivity.
-Qed.
-
-Lemma lwp_rejects_v4 : forall (dbg loc be : bool) (version asz : N) (l : list wloc) (hb : bool) (e : error),
+Lemma lwp_rejects_v4 : forall (loc be : bool) (version asz : N) (l : list wloc) (hb : bool) (e : error),
   size_ok asz -> version <= 4 -> Forall wloc_wf l ->
-  rejected hb l = Some e -> plain_until_reject asz hb l = true ->
-  write_list_v4 dbg loc be version asz hb l = Err e.
-Proof. intros dbg loc be version asz l hb e Hs Hv. exact (lw_rejects dbg loc be version asz Hs Hv l hb e). Qed.
+  rejected asz hb l = Some e -> plain_until_reject asz hb l = true ->
+  write_list_v4 loc be version asz (marker asz) hb l = Err e.
+Proof. intros loc be version asz l hb e Hs Hv. exact (lw_rejects loc be version asz Hs Hv l hb e). Qed.
 
-Lemma lwp_rejected_never_bytes : forall (dbg loc be : bool) (version asz : N) (l : list wloc) (hb : bool) (bs : list byte),
-  write_list_v4 dbg loc be version asz hb l = Ok bs -> Forall (wf loc) l -> rejected hb l = None.
-Proof. intros dbg loc be version asz. exact (lw_never_bytes dbg loc be version asz). Qed.
+Lemma lwp_rejected_never_bytes : forall (loc be : bool) (version asz : N) (l : list wloc) (hb : bool) (bs : list byte),
+  write_list_v4 loc be version asz (marker asz) hb l = Ok bs -> Forall (wf loc) l -> rejected asz hb l = None.
+Proof. intros loc be version asz. exact (lw_never_bytes loc be version asz). Qed.
 
 Lemma lwp_dedup_rng : forall (xs : list (list wrange)) t ids,
   rng_add_all [] xs = (t, ids) ->
@@ -1449,10 +1402,10 @@ Lemma lw_offsets_get offs i o : nth_error offs i = Some o -> offsets_get offs i 
 Proof. unfold offsets_get. intros ->. reflexivity. Qed.
 
 Lemma lwp_added_lists_read_back_v5 :
-  forall (dbg dbg' be fmt64 : bool) (asz : N) attrs (rstart lstart : N)
+  forall (dbg' be fmt64 : bool) (asz : N) attrs (rstart lstart : N)
     (rxs : list (list wrange)) (lxs : list (list wloc)) rtbl rids ltbl lids rb ro lb lo (rsec lsec : list byte) (base : N),
   rng_add_all [] rxs = (rtbl, rids) -> loc_add_all [] lxs = (ltbl, lids) ->
-  unit_write_lists dbg be fmt64 5 asz attrs rstart lstart rtbl ltbl = Ok ((rb, ro), (lb, lo)) ->
+  unit_write_lists be fmt64 5 asz attrs rstart lstart rtbl ltbl = Ok ((rb, ro), (lb, lo)) ->
   N.of_nat (length rsec) = rstart -> N.of_nat (length lsec) = lstart -> unit_wf rtbl ltbl ->
   (forall k x, nth_error rxs k = Some x ->
      exists id o es rest, nth_error rids k = Some id /\ offsets_get ro id = Ok o /\
@@ -1465,11 +1418,11 @@ Lemma lwp_added_lists_read_back_v5 :
        ents_of x = Some es /\
        meaning_loc asz base x = Some (resolve asz base es)).
 Proof.
-  intros dbg dbg' be fmt64 asz attrs rstart lstart rxs lxs rtbl rids ltbl lids rb ro lb lo rsec lsec base
+  intros dbg' be fmt64 asz attrs rstart lstart rxs lxs rtbl rids ltbl lids rb ro lb lo rsec lsec base
     Hra Hla Hw Hrs Hls Hwf.
   destruct (lw_dedup _ (lw_list_eqb_spec _ lw_wrange_eqb_spec) _ _ _ Hra) as [_ [_ [Hrk _]]].
   destruct (lw_dedup _ (lw_list_eqb_spec _ lw_wloc_eqb_spec) _ _ _ Hla) as [_ [_ [Hlk _]]].
-  destruct (lw_unit_read_v5 _ dbg' _ _ _ _ _ _ _ _ _ _ _ _ rsec lsec base Hw Hrs Hls Hwf) as [Hr Hl]. split.
+  destruct (lw_unit_read_v5 dbg' _ _ _ _ _ _ _ _ _ _ _ _ rsec lsec base Hw Hrs Hls Hwf) as [Hr Hl]. split.
   - intros k x Hx. destruct (Hrk k x Hx) as [id [Hid Ht]].
     destruct (Hr id x Ht) as [o [es [rest [Ho [Hd [He Hm]]]]]].
     exists id, o, es, rest. repeat split; try assumption. now apply lw_offsets_get.
@@ -1479,30 +1432,30 @@ Proof.
 Qed.
 
 Lemma lwp_added_lists_read_back_v4 :
-  forall (dbg dbg' be fmt64 : bool) (version asz : N) attrs (rstart lstart : N)
+  forall (dbg' be fmt64 : bool) (version asz : N) attrs (rstart lstart : N)
     (rxs : list (list wrange)) (lxs : list (list wloc)) rtbl rids ltbl lids rb ro lb lo (rsec lsec : list byte),
   rng_add_all [] rxs = (rtbl, rids) -> loc_add_all [] lxs = (ltbl, lids) ->
-  unit_write_lists dbg be fmt64 version asz attrs rstart lstart rtbl ltbl = Ok ((rb, ro), (lb, lo)) ->
+  unit_write_lists be fmt64 version asz attrs rstart lstart rtbl ltbl = Ok ((rb, ro), (lb, lo)) ->
   2 <= version <= 4 ->
   N.of_nat (length rsec) = rstart -> N.of_nat (length lsec) = lstart -> unit_wf rtbl ltbl ->
-  (forall k x, nth_error rxs k = Some x -> ~ marker_clash asz (map loc_of_range x) ->
+  (forall k x, nth_error rxs k = Some x ->
      exists id o ps rest, nth_error rids k = Some id /\ offsets_get ro id = Ok o /\
        dec4 dbg' false be asz (at_offset o (rsec ++ rb)) = Ok (ps, rest) /\
        meaning_rng asz (unit_base attrs) x = Some (map fst (resolve asz (unit_base attrs) ps))) /\
-  (forall k x, nth_error lxs k = Some x -> ~ marker_clash asz x ->
+  (forall k x, nth_error lxs k = Some x ->
      exists id o ps rest, nth_error lids k = Some id /\ offsets_get lo id = Ok o /\
        dec4 dbg' true be asz (at_offset o (lsec ++ lb)) = Ok (ps, rest) /\
        meaning_loc asz (unit_base attrs) x = Some (resolve asz (unit_base attrs) ps)).
 Proof.
-  intros dbg dbg' be fmt64 version asz attrs rstart lstart rxs lxs rtbl rids ltbl lids rb ro lb lo rsec lsec
+  intros dbg' be fmt64 version asz attrs rstart lstart rxs lxs rtbl rids ltbl lids rb ro lb lo rsec lsec
     Hra Hla Hw Hv Hrs Hls Hwf.
   destruct (lw_dedup _ (lw_list_eqb_spec _ lw_wrange_eqb_spec) _ _ _ Hra) as [_ [_ [Hrk _]]].
   destruct (lw_dedup _ (lw_list_eqb_spec _ lw_wloc_eqb_spec) _ _ _ Hla) as [_ [_ [Hlk _]]].
-  destruct (lw_unit_read_v4 _ dbg' _ _ _ _ _ _ _ _ _ _ _ _ _ rsec lsec Hw Hv Hrs Hls Hwf) as [Hr Hl]. split.
-  - intros k x Hx Hc. destruct (Hrk k x Hx) as [id [Hid Ht]].
-    destruct (Hr id x Ht Hc) as [o [ps [rest [Ho [Hd Hm]]]]].
+  destruct (lw_unit_read_v4 dbg' _ _ _ _ _ _ _ _ _ _ _ _ _ rsec lsec Hw Hv Hrs Hls Hwf) as [Hr Hl]. split.
+  - intros k x Hx. destruct (Hrk k x Hx) as [id [Hid Ht]].
+    destruct (Hr id x Ht) as [o [ps [rest [Ho [Hd Hm]]]]].
     exists id, o, ps, rest. repeat split; try assumption. now apply lw_offsets_get.
-  - intros k x Hx Hc. destruct (Hlk k x Hx) as [id [Hid Ht]].
-    destruct (Hl id x Ht Hc) as [o [ps [rest [Ho [Hd Hm]]]]].
+  - intros k x Hx. destruct (Hlk k x Hx) as [id [Hid Ht]].
+    destruct (Hl id x Ht) as [o [ps [rest [Ho [Hd Hm]]]]].
     exists id, o, ps, rest. repeat split; try assumption. now apply lw_offsets_get.
 Qed.
